@@ -88,6 +88,8 @@ type State struct {
 	Mem   map[string]*smt.Term // element leaf key -> Array(Region -> Array(BV64 -> leaf))
 	Cells map[*Cell]Value
 	PC    []*smt.Term
+	// IsBranch[i]: PC[i] is a branch decision (as opposed to an assumed fact)
+	IsBranch []bool
 	// Trace of branch decisions (source positions) for path description
 	Trace []string
 	// references / regions allocated on this path (for distinctness)
@@ -136,6 +138,7 @@ func (s *State) Clone() *State {
 		n.Cells[k] = v
 	}
 	n.PC = append([]*smt.Term(nil), s.PC...)
+	n.IsBranch = append([]bool(nil), s.IsBranch...)
 	n.Trace = append([]string(nil), s.Trace...)
 	return n
 }
@@ -145,6 +148,16 @@ func (s *State) Assume(t *smt.Term) {
 		return
 	}
 	s.PC = append(s.PC, t)
+	s.IsBranch = append(s.IsBranch, false)
+}
+
+// Branch records a branch decision.
+func (s *State) Branch(t *smt.Term) {
+	if t.IsTrue() {
+		return
+	}
+	s.PC = append(s.PC, t)
+	s.IsBranch = append(s.IsBranch, true)
 }
 
 // ---------- type helpers ----------
